@@ -97,4 +97,10 @@ var registry = []prop{
 		Thor:   tierCfg{Shards: 16, Scale: 10, TimeoutS: 2400},
 		Assume: []string{"the current state file always exists and timestamps strictly increase with the sequence number", "request budget 8*(ceil(log2(cur))+2) + 4*(missing files in [1,cur]) + 16 is the harness's generous reading of logarithmic plus stepped-over gaps", "queries before every state are only combined with missing prefixes of at most 2000 files (any exact search has to inspect the whole prefix then)"},
 	},
+	{
+		ID: "C20", Pkg: "props/c20", Level: "exploration",
+		Quick:  tierCfg{Shards: 1, Scale: 1, TimeoutS: 300},
+		Thor:   tierCfg{Shards: 16, Scale: 10, TimeoutS: 1500},
+		Assume: []string{"the endpoint table is the harness's transcription of the OSM API v0.6 documentation plus the library-documented at= extension", "3xx statuses are excluded (net/http handles redirects before the library sees them)", "responses are served by an in-process http.RoundTripper; nothing is sent over a network"},
+	},
 }
